@@ -143,6 +143,7 @@ def run(ck, fb):
     r15d(ck, fb)
     r15e(ck, fb)
     r15f(ck, fb)
+    r15g(ck, fb)
 
 
 def _closure_calls_all(fb, fn, names):
@@ -297,3 +298,38 @@ def r15f(ck, fb):
     for s in own:
         ok = any(a[0] == 'call' and (a[1] or '').endswith('ProcessRange::is_range_at_list') and a[2] is True for a in cfg.guard_atoms(b, s.bb))
         ck.require(ok, 'R15f', 'build_snapshot_data:range-filter', s.where(), 'services outside the requested ranges are put into the snapshot')
+
+
+def r15g(ck, fb):
+    ck.rule('R15g', 'producer/consumer agreement on the route: NamingRoute::{update_instance,delete_instance} hand the number carried by '
+                    'NamingRouteAddr::Remote to do_route_instance as the owner\'s cluster id (stamped into instance.from_cluster of the local copy, '
+                    'given to AddClientId); NodeManage::route_addr must therefore put the selected node\'s `id` there, not its position in the list '
+                    'of valid nodes (position 0 reads as "registered on this node")')
+    ra = ck.main(NM.replace('InnerNodeManage::', '') + 'NodeManage::route_addr', 'R15g') if False else None
+    names = [n for n in fb.bodies if re.search(r'node_manage::NodeManage::route_addr', n)]
+    if not names:
+        ck.bad('R15g', 'anchor:route_addr', '-', 'NodeManage::route_addr not found')
+        return
+    n = 0
+    for nm in names:
+        b = fb.bodies[nm]
+        for (i, j, st) in b.aggregates(r'cluster::model::NamingRouteAddr$', 'Remote'):
+            n += 1
+            ck.analysed(b)
+            op = st['rv']['ops'][0]
+            of = cfg.origin_fields(b, op)
+            ck.require(of[-1:] == ['id'], 'R15g', 'route_addr:Remote-carries-node-id', b.where(i),
+                       'NamingRouteAddr::Remote carries %s, not the id of the selected node: the routing side stamps instance.from_cluster with it and '
+                       'registers the client under it, so the copy of an instance owned by the first valid node is marked as registered here '
+                       '(from_cluster = 0) and other owners get a wrong, off-by-one origin until their next batch sync' % (cfg.fmt_desc(cfg.describe_operand(b, op))[:50]),
+                       'node.id')
+    ck.floor('R15g', 'Remote route results', n, 1)
+    # consumer side: the value is used as a cluster id
+    RT = 'rnacos::naming::cluster::route::NamingRoute::'
+    d = fb.main(RT + 'do_route_instance') if fb.has(RT + 'do_route_instance') else None
+    if d is None:
+        ck.body(RT + 'do_route_instance', 'R15g')
+    else:
+        ck.analysed(d)
+        w = [(bb, st) for (o, f, bb, st) in d.field_writes() if f == 'from_cluster']
+        ck.require(len(w) >= 1, 'R15g', 'do_route_instance:stamps-origin', d.where(), 'the local copy of a routed instance is not stamped with the owner\'s cluster id')
